@@ -1,11 +1,418 @@
+/-
+  C18 — determinism.
+
+  "Compilation is a function of the circuit, label and public parameters, and proving is a function
+  of the keys, the circuit instance and the bytes drawn from the caller's RNG: repeated runs give
+  byte-identical keys and proofs.  The result does not depend on the number of worker threads, on
+  how work is scheduled among them, on per-process hash seeds (HashMap iteration order of
+  `public_inputs` / `witness_map`), or on whether the parallel (std) or the serial (alloc-only)
+  code paths are compiled in."
+
+  In the pure model "is a function" is free (§5: `compile_is_function`, `join_is_pair` are
+  definitional and labelled so).  What is PROVED is that every place where the Rust result could
+  depend on a thread count, a schedule, a chunking, a reduction tree or a hash-map iteration order
+  is order / partition independent.  The sites (grep of `par_iter|par_chunks|rayon::|HashMap` in
+  `/repo/src`, prover and compiler side) and the theorem that covers each:
+
+  | Rust site                                                         | theorem                                   |
+  |-------------------------------------------------------------------|-------------------------------------------|
+  | fft/domain.rs `best_fft` three-way switch, `rayon::current_num_threads()` | `fft_switch_arms_agree`, `fft_threads_irrelevant`, `prover_transforms_threads_irrelevant` |
+  | fft/domain.rs `par_chunks_mut(2m).for_each(butterfly_chunk)`      | `fft_chunks_schedule_irrelevant`          |
+  | fft/domain.rs `parallel_butterfly_chunk` (pieces of one chunk)    | `fft_switch_arms_agree` (result = serial chunk for every thread count; the pieces are folded in index order in the model — see "not covered") |
+  | fft/domain.rs `ifft_in_place` `par_iter_mut().for_each(*= size_inv)`, lagrange `par_iter_mut().zip` | `chunked_map_eq` (index-wise maps) |
+  | composer/permutation.rs `witness_map.iter()` (HashMap)            | `sigma_hash_order_irrelevant`             |
+  | composer.rs `public_inputs` (HashMap) + `public_input_indexes().sort()` | `public_inputs_sorted`, `pi_order_irrelevant` |
+  | composer/permutation.rs numerators / denominators `into_par_iter().map().collect()`, sequential product | `perm_vec_sequential` |
+  | proof_system/quotient_poly.rs the three `into_par_iter().map().collect()` loops, `par_iter_mut` over the 5 coset FFT slots | `quotient_evals_indexwise`, `chunked_map_eq` |
+  | proof_system/proof.rs `compute_barycentric_eval` `filter().collect()`, `map().sum()` | `chunked_filter_eq`, `parallel_sum_eq`, `barycentric_sum_tree` |
+  | compiler/prover.rs `rayon::join` (blinding, commitments)          | `join_is_pair` (definitional); error precedence `a? b? c? d?` is `commit4` in both builds |
+  | caller's RNG                                                      | `prove_is_function_of_draws`              |
+  | `#[cfg(feature = "std")]` vs `alloc`                               | `serial_equals_parallel_build`            |
+
+  All theorems are FULL (no `_partial`).  Remarks / forced hypotheses:
+
+  * `1 ≤ threads` everywhere: with `threads = 0` the model's `parallelButterflyChunk` is a no-op
+    (`divCeil m 0 = 0`); rayon never reports 0 threads.  `m < 2^256`, `logSize ≤ 256`: range of the
+    model's `fpow` (every `Domain.new?` domain has `logSize < 32`).
+  * `fft_chunks_schedule_irrelevant` needs `cnt·2m ≤ a.size` (the chunks lie inside the array —
+    true in `bestFft`, where `cnt = n / (2m)`).
+  * `compile` / `prove` of the model have NO `threads` and NO visiting-order parameter (they call
+    the transforms with the default `threads := 1` and `sigmaMaps` in index order).  For the
+    compiler this file uses `Det.compileWith threads order` — the text of `compile` with the thread
+    count passed to every transform and `Perm.sigmaMapsOrder … order` in place of `sigmaMaps` — and
+    proves `compileWith threads order = compile`.  For `prove` no such copy is made: the statement
+    is on the transform / loop level (`prover_transforms_threads_irrelevant` covers every transform
+    `prove` calls, since all its domains come from `Domain.new?`).
+  * NOT covered: (a) the order in which the *pieces* inside one `parallel_butterfly_chunk` run (the
+    model folds them in index order; they touch disjoint index ranges exactly like the chunks of
+    `fft_chunks_schedule_irrelevant`, but that commutation is not proved here); (b) the verifier-side
+    `par_iter().sum()` of G1 points in `kzg10/proof.rs` (group-level, outside the scalar model);
+    (c) that rayon's `collect` / `sum` really are "concatenate in index order" / "some reduction
+    tree" — this is the modelling assumption behind `chunked_map_eq` / `parallel_sum_eq`.
+-/
 import Plonk.Props.C19Fft
-import Plonk.Model.Prover
+import Plonk.Proofs.Determinism
+import Plonk.Proofs.ProverMask
+
 namespace Plonk.Props.C18
-open Plonk
+open Plonk Plonk.Det
+
+/-! ## 1. FFT: thread count, switch arms, chunk schedule -/
+
 /-- the FFT result does not depend on the number of worker threads (all four transforms) -/
 theorem fft_threads_irrelevant (d : Domain) (hlog : d.logSize ≤ 256) (v : List Nat)
     (threads threads' : Nat) (ht : 1 ≤ threads) (ht' : 1 ≤ threads') :
     d.fft v threads = d.fft v threads' ∧ d.ifft v threads = d.ifft v threads' ∧
     d.cosetFft v threads = d.cosetFft v threads' ∧ d.cosetIfft v threads = d.cosetIfft v threads' :=
   Plonk.Props.C19Fft.fft_threads_irrelevant d hlog v threads threads' ht ht'
+
+example : ∃ d, Domain.new? 1000 = some d ∧ d.logSize ≤ 256 ∧ 1 ≤ 7 ∧ 1 ≤ 32 := by
+  obtain ⟨d, hd⟩ : ∃ d, Domain.new? 1000 = some d := Option.isSome_iff_exists.mp (by decide +kernel)
+  have := (Domain.new?_wf 1000 d hd).2
+  exact ⟨d, hd, by omega, by omega, by omega⟩
+
+/-- **the three arms of the switch inside one stage of `best_fft` agree** — `par_chunks_mut`
+    (`armPar`), `parallel_butterfly_chunk` per chunk (`armFinal`, depends on the thread count) and the
+    serial loop (`armSerial`) — hence the stage, with the thresholds of the code, is the serial
+    stage, whatever `threads ≥ 1` is and whatever values the three thresholds have -/
+theorem fft_switch_arms_agree (a : Array Nat) (n m wm threads : Nat) (ht : 1 ≤ threads)
+    (hm : m < 2 ^ 256) :
+    let chunkCount := n / (2 * m)
+    let armPar := (List.range chunkCount).foldl (fun a c => butterflyChunk a (c * 2 * m) m wm) a
+    let armFinal :=
+      (List.range chunkCount).foldl (fun a c => parallelButterflyChunk a (c * 2 * m) m wm threads) a
+    let armSerial := (List.range chunkCount).foldl (fun a c => butterflyChunk a (c * 2 * m) m wm) a
+    armFinal = armSerial ∧ armPar = armSerial ∧
+    (if chunkCount ≥ Generated.PARALLEL_FFT_MIN_CHUNKS then armPar
+     else if n ≥ Generated.PARALLEL_FINAL_FFT_MIN_LEN ∧ threads ≥ Generated.PARALLEL_FINAL_FFT_MIN_THREADS
+       then armFinal else armSerial) = armSerial ∧
+    -- and for the whole transform
+    (∀ (omega logN : Nat), logN ≤ 256 → bestFft a omega logN threads = serialFft a omega logN) := by
+  intro chunkCount armPar armFinal armSerial
+  have h1 : armFinal = armSerial := parallel_arm_eq_serial_arm a m wm chunkCount threads ht hm
+  refine ⟨h1, rfl, ?_, fun omega logN hl => bestFft_eq_serialFft a omega logN threads ht hl⟩
+  split
+  · rfl
+  · split
+    · exact h1
+    · rfl
+
+/-- non-vacuity: the thresholds of the code are the ones the theorem mentions, and the middle arm is
+    really taken for some sizes (`n = 4096`, last stage `m = 2048`: one chunk, `threads = 8`) -/
+example : (1 : Nat) ≤ 8 ∧ (2048 : Nat) < 2 ^ 256 ∧
+    ¬ (4096 / (2 * 2048) ≥ Generated.PARALLEL_FFT_MIN_CHUNKS) ∧
+    (4096 ≥ Generated.PARALLEL_FINAL_FFT_MIN_LEN ∧ 8 ≥ Generated.PARALLEL_FINAL_FFT_MIN_THREADS) := by
+  decide
+
+/-- **`par_chunks_mut(2m).for_each(|chunk| butterfly_chunk(chunk, m, w_m))`**: the chunks of one
+    stage may be processed in ANY order (every schedule that runs each chunk once): same array as the
+    serial loop.  (Chunks touch pairwise disjoint index ranges.) -/
+theorem fft_chunks_schedule_irrelevant (a : Array Nat) (m wm cnt : Nat) (hb : cnt * (2 * m) ≤ a.size)
+    (order : List Nat) (hp : order.Perm (List.range cnt)) :
+    order.foldl (fun a c => butterflyChunk a (c * 2 * m) m wm) a
+      = (List.range cnt).foldl (fun a c => butterflyChunk a (c * 2 * m) m wm) a :=
+  chunks_order_irrelevant a m wm cnt hb order hp
+
+/-- non-vacuity: 4 chunks of length 2 in an array of 8, visited in the order 2,0,3,1 -/
+example : 4 * (2 * 1) ≤ (#[1, 2, 3, 4, 5, 6, 7, 8] : Array Nat).size ∧
+    [2, 0, 3, 1].Perm (List.range 4) := by decide
+
+/-- **every transform the compiler and the prover call**: their domains come from `Domain.new?`,
+    and on such a domain each of the four transforms, run with any thread count, equals the call the
+    model makes (default `threads := 1`) -/
+theorem prover_transforms_threads_irrelevant (m : Nat) (d : Domain) (hd : Domain.new? m = some d)
+    (threads : Nat) (ht : 1 ≤ threads) (v : List Nat) :
+    d.fft v threads = d.fft v ∧ d.ifft v threads = d.ifft v ∧
+    d.cosetFft v threads = d.cosetFft v ∧ d.cosetIfft v threads = d.cosetIfft v :=
+  transforms_threads m d hd threads ht v
+
+example : ∃ d, Domain.new? 4096 = some d ∧ 1 ≤ 16 :=
+  ⟨_, (Option.isSome_iff_exists.mp (by decide +kernel : (Domain.new? 4096).isSome)).choose_spec, by omega⟩
+
+/-! ## 2. `HashMap` iteration order of `witness_map` -/
+
+/-- a three-gate layout (the example of C05): witness 0 sits at (a,0) (c,1) (d,2); witness 1 at
+    (b,0) (b,1) (a,2) (b,2); witness 2 at (c,0) (a,1) (c,2); witness 3 at (d,0) (d,1) -/
+def exLay : Composer :=
+  { gates := #[{ a := 0, b := 1, c := 2, d := 3 }, { a := 2, b := 1, c := 0, d := 3 },
+               { a := 1, b := 1, c := 2, d := 0 }],
+    wit := #[5, 7, 12, 0] }
+
+/-- **`compute_sigma_permutations` iterates a `HashMap`**: visiting the witnesses in any order (any
+    permutation of the key set) gives the same sigma tables, and the whole compilation — with the
+    visiting order threaded through (`Det.compileWith`), and any thread count — is `compile` -/
+theorem sigma_hash_order_irrelevant (c : Composer) (order : List Nat)
+    (ho : order.Perm (List.range c.wit.size)) :
+    (∀ n, Perm.sigmaMapsOrder c n order = sigmaMaps c n) ∧
+    (∀ (threads : Nat), 1 ≤ threads → ∀ (srs : SRS) (srsLen : Nat) (label : List Nat),
+      compileWith threads order srs srsLen label c = compile srs srsLen label c) :=
+  ⟨fun n => Perm.sigma_order_independent c n order ho,
+   fun threads ht srs srsLen label => compileWith_eq threads ht order srs srsLen label c ho⟩
+
+/-- non-vacuity: a non-identity visiting order; the tables are a non-trivial permutation -/
+example : [2, 0, 3, 1].Perm (List.range exLay.wit.size) ∧
+    Perm.sigmaMapsOrder exLay 4 [2, 0, 3, 1] =
+      #[#[(2, 1), (2, 2), (1, 2), (0, 3)], #[(1, 1), (0, 2), (1, 0), (1, 3)],
+        #[(0, 1), (3, 2), (2, 0), (2, 3)], #[(3, 1), (3, 0), (0, 0), (3, 3)]] := by
+  decide +kernel
+
+/-! ## 3. `HashMap` iteration order of `public_inputs` -/
+
+/-- **the recorded public-input rows are strictly increasing** (and point at existing gates): this
+    holds for `Composer::initialized()` and is preserved by every computation built from the
+    primitive state transformers `appendWitness` / `appendCustomGate` / `getVal` / `get` (`Det.Built`),
+    in particular by every gadget of the model and by every program (with early exit) made of
+    such steps -/
+theorem public_inputs_sorted :
+    Det.PisSorted Composer.initialized ∧
+    (∀ {α : Type} (m : CM α), Built m → ∀ c, PisSorted c → PisSorted (m.run c).2) ∧
+    (∀ (fs : List Step), (∀ f ∈ fs, ∀ regs, BuiltE (f regs)) → ∀ regs c, PisSorted c →
+      PisSorted ((runSteps fs regs).run.run c).2) ∧
+    (∀ c, PisSorted c → (c.pis.toList.map (·.1)).Pairwise (· < ·) ∧ (c.pis.toList.map (·.1)).Nodup) :=
+  ⟨pisSorted_initialized, fun _ h c hc => h.pisSorted c hc,
+   fun _ h regs c hc => Built.pisSorted (built_runSteps h regs) c hc,
+   fun _ hc => ⟨hc.1, hc.nodup_rows⟩⟩
+
+/-- **all gadgets only use the primitives** (so `public_inputs_sorted` applies to them) -/
+theorem gadgets_built :
+    (∀ s, Built (Composer.appendGate s)) ∧ (∀ s, Built (Composer.appendEvaluatedOutput s)) ∧
+    (∀ s, Built (Composer.gateAdd s)) ∧ (∀ s, Built (Composer.gateMul s)) ∧
+    (∀ a b, Built (Composer.assertEqual a b)) ∧ (∀ a k p, Built (Composer.assertEqualConstant a k p)) ∧
+    (∀ v, Built (Composer.appendConstant v)) ∧ (∀ v, Built (Composer.appendPublic v)) ∧
+    Built Composer.appendDummyGates ∧ (∀ a, Built (Composer.componentBoolean a)) ∧
+    (∀ n s, Built (Composer.componentDecomposition n s)) ∧ (∀ b x y, Built (Composer.componentSelect b x y)) ∧
+    (∀ b v, Built (Composer.componentSelectOne b v)) ∧ (∀ b v, Built (Composer.componentSelectZero b v)) ∧
+    (∀ w n, Built (Composer.rangeCheck w n)) ∧ (∀ b w, Built (Composer.componentRangeBits b w)) ∧
+    (∀ b w, Built (Composer.componentRange b w)) ∧ (∀ n w, Built (Composer.componentTruncate n w)) ∧
+    (∀ p a b x, Built (Composer.appendLogicComponent p a b x)) ∧
+    (∀ e, Built (Composer.appendPoint e)) ∧ (∀ e, Built (Composer.appendConstantPoint e)) ∧
+    (∀ e, Built (Composer.appendPublicPoint e)) ∧ (∀ a b, Built (Composer.assertEqualPoint a b)) ∧
+    (∀ p e, Built (Composer.assertEqualPublicPoint p e)) ∧ (∀ p, Built (Composer.assertTorsionFreePoint p)) ∧
+    (∀ a b, Built (Composer.componentAddPoint a b)) ∧ (∀ a b, Built (Composer.componentSubPoint a b)) ∧
+    (∀ b a, Built (Composer.componentSelectIdentity b a)) ∧ (∀ b x y, Built (Composer.componentSelectPoint b x y)) ∧
+    (∀ s p, Built (Composer.componentMulPoint s p)) ∧
+    (∀ s g ds, Built (Composer.appendFixedBaseSignedDigits s g ds)) ∧
+    (∀ s g, Built (Composer.componentMulGenerator s g)) :=
+  ⟨built_appendGate, built_appendEvaluatedOutput, built_gateAdd, built_gateMul, built_assertEqual,
+   built_assertEqualConstant, built_appendConstant, built_appendPublic, built_appendDummyGates,
+   built_componentBoolean, built_componentDecomposition, built_componentSelect, built_componentSelectOne,
+   built_componentSelectZero, built_rangeCheck, built_componentRangeBits, built_componentRange,
+   built_componentTruncate, built_appendLogicComponent, built_appendPoint, built_appendConstantPoint,
+   built_appendPublicPoint, built_assertEqualPoint, built_assertEqualPublicPoint,
+   built_assertTorsionFreePoint, built_componentAddPoint, built_componentSubPoint,
+   built_componentSelectIdentity, built_componentSelectPoint, built_componentMulPoint,
+   built_appendFixedBaseSignedDigits, built_componentMulGenerator⟩
+
+/-- a small circuit with three public inputs, interleaved with other gates -/
+def exProg : CM Nat := do
+  let a ← Composer.appendPublic 5
+  let b ← Composer.appendPublic 7
+  let s ← Composer.gateAdd { ql := 1, qr := 1, a := a, b := b }
+  Composer.componentBoolean s
+  Composer.appendPublic 12
+
+theorem exProg_built : Built exProg := by
+  unfold exProg; built_tac
+
+/-- non-vacuity: the program is `Built`, and run from the initial state it records the rows 4, 5, 8 -/
+example : Built exProg ∧ PisSorted Composer.initialized ∧
+    (exProg.run Composer.initialized).2.pis.toList = [(4, 5), (5, 7), (8, 12)] :=
+  ⟨exProg_built, pisSorted_initialized, by decide +kernel⟩
+
+/-- **`public_inputs` is a `HashMap`; `public_input_indexes()` collects its keys in iteration order and
+    sorts them**.  For a composer state whose rows are strictly increasing (every reachable state, by
+    `public_inputs_sorted`) and ANY permutation `l'` of its `(row, value)` pairs (any iteration order):
+    the model's sorted insertion of `l'` (`sortedPis'`, `sortedRows`), and `mergeSort` of `l'` by row,
+    all return the insertion-ordered list of the model.  In particular (with `l' = pis`) sorting is
+    the identity. -/
+theorem pi_order_irrelevant (c : Composer) (hc : PisSorted c) (l' : List (Nat × Nat))
+    (hp : l'.Perm c.pis.toList) :
+    prove.Plonk.Driver.sortedPis' { c with pis := l'.toArray } = c.pis.toList ∧
+    compile.Plonk.Driver.sortedRows { c with pis := l'.toArray } = c.pis.toList.map (·.1) ∧
+    l'.mergeSort (fun p q => decide (p.1 ≤ q.1)) = c.pis.toList ∧
+    prove.Plonk.Driver.sortedPis' c = c.pis.toList ∧
+    compile.Plonk.Driver.sortedRows c = c.pis.toList.map (·.1) := by
+  have hL : c.pis.toList.Pairwise RowLt := by
+    have := hc.1
+    rw [List.pairwise_map] at this
+    exact this
+  refine ⟨?_, ?_, mergeSort_perm_sorted hL hp, ?_, ?_⟩
+  · rw [sortedPis'_eq]; exact insFoldPair_perm_sorted hL hp
+  · rw [CompressModel.sortedRows_eq]
+    exact insFold_perm_sorted hc.1 (by simpa using hp.map (·.1))
+  · rw [sortedPis'_eq]; exact insFoldPair_perm_sorted hL (List.Perm.refl _)
+  · rw [CompressModel.sortedRows_eq]; exact insFold_perm_sorted hc.1 (List.Perm.refl _)
+
+/-- non-vacuity: the state reached by `exProg` and a reversed / rotated iteration order -/
+example : PisSorted (exProg.run Composer.initialized).2 ∧
+    [(8, 12), (4, 5), (5, 7)].Perm (exProg.run Composer.initialized).2.pis.toList :=
+  ⟨exProg_built.pisSorted _ pisSorted_initialized, by decide +kernel⟩
+
+/-! ## 4. parallel loops: chunking, scheduling, reduction trees -/
+
+/-- **`into_par_iter().map(f).collect()` / `par_iter_mut().for_each` / `par_chunks`**: cut `0..n` into
+    consecutive chunks of ANY sizes, let the chunks be computed under ANY schedule (each chunk at
+    least once, in any order) into their slots, concatenate the slots in index order: the result is
+    `(List.range n).map f`.  Also in the plain form: for any list of chunks, mapping chunk-wise and
+    concatenating is mapping the concatenation. -/
+theorem chunked_map_eq {β : Type} (f : Nat → β) :
+    (∀ (sizes sched : List Nat), (∀ j, j < sizes.length → j ∈ sched) →
+      (runSchedule sizes.length (fun j => ((chunksFrom 0 sizes).getD j []).map f) [] sched).toList.flatten
+        = (List.range sizes.sum).map f) ∧
+    (∀ sizes : List Nat, (chunksFrom 0 sizes).flatten = List.range sizes.sum) ∧
+    (∀ chunks : List (List Nat), (chunks.map fun ch => ch.map f).flatten = chunks.flatten.map f) :=
+  ⟨fun sizes sched h => chunked_scheduled_map f sizes sched h,
+   fun sizes => by rw [chunksFrom_flatten, List.range_eq_range'],
+   fun chunks => chunked_map_flatten f chunks⟩
+
+/-- non-vacuity: 8 indices cut into chunks of sizes 3, 0, 5, computed in the order 2, 0, 1, 0 -/
+example : (∀ j, j < [3, 0, 5].length → j ∈ [2, 0, 1, 0]) ∧
+    (runSchedule 3 (fun j => ((chunksFrom 0 [3, 0, 5]).getD j []).map (· * 10)) [] [2, 0, 1, 0]).toList.flatten
+      = [0, 10, 20, 30, 40, 50, 60, 70] := by
+  decide +kernel
+
+/-- `filter().collect()` over chunks keeps the index order -/
+theorem chunked_filter_eq {α : Type} (p : α → Bool) (chunks : List (List α)) :
+    (chunks.map fun ch => ch.filter p).flatten = chunks.flatten.filter p :=
+  chunked_filter_flatten p chunks
+
+example : ([[1, 2], [], [3, 4, 5]].map fun ch => ch.filter (· % 2 == 1)).flatten = [1, 3, 5] := by decide
+
+/-- **the quotient loop is an index-wise map**: `quotientEvals` is `(List.range size8).map` of a
+    function of the index and the inputs only (`Det.quotientAt`, the loop body); hence entry `i` does
+    not depend on `size8` nor on other entries, and every chunked / scheduled evaluation gives the
+    same list -/
+theorem quotient_evals_indexwise (size8 : Nat) (selE sigE8 : Array (Array Nat))
+    (linE aE bE cE dE zE piE vh vhInv8 l1Den : Array Nat)
+    (nInv8 beta gamma alpha rSep lSep fSep vSep : Nat) :
+    let at_ := quotientAt selE sigE8 linE aE bE cE dE zE piE vh vhInv8 l1Den nInv8 beta gamma alpha
+      rSep lSep fSep vSep
+    let q := quotientEvals size8 selE sigE8 linE aE bE cE dE zE piE vh vhInv8 l1Den nInv8 beta gamma
+      alpha rSep lSep fSep vSep
+    q = (List.range size8).map at_ ∧ q.length = size8 ∧
+    (∀ i, i < size8 → q.getD i 0 = at_ i) ∧
+    (∀ (sizes sched : List Nat), sizes.sum = size8 → (∀ j, j < sizes.length → j ∈ sched) →
+      (runSchedule sizes.length (fun j => ((chunksFrom 0 sizes).getD j []).map at_) [] sched).toList.flatten
+        = q) := by
+  intro at_ q
+  have hq : q = (List.range size8).map at_ := quotientEvals_eq_map ..
+  refine ⟨hq, by rw [hq]; simp, fun i hi => ?_, fun sizes sched hs hall => ?_⟩
+  · rw [hq]; exact getD_map_range _ _ _ hi
+  · rw [hq, ← hs]; exact chunked_scheduled_map at_ sizes sched hall
+
+/-- non-vacuity: chunk sizes summing to the size, a schedule covering the chunks -/
+example : ([3, 1, 4] : List Nat).sum = 8 ∧ (∀ j, j < [3, 1, 4].length → j ∈ [1, 2, 0]) := by decide
+
+/-- **`compute_permutation_vec`**: numerators and denominators are index-wise maps (bodies
+    `Det.permNumAt`, `Det.permDenAt`), and the vector is the sequence of iterates of a sequential
+    accumulator, `z₀ = 1`, `z_{i+1} = step i z_i` (deterministic by construction: entry `i + 1` is a
+    function of entry `i`) -/
+theorem perm_vec_sequential (n : Nat) (roots aS bS cS dS : List Nat) (sigE : List (List Nat))
+    (beta gamma : Nat) :
+    let nums := (List.range n).map (permNumAt roots aS bS cS dS beta gamma)
+    let dens := (List.range n).map (permDenAt aS bS cS dS sigE beta gamma)
+    let step := permStep n nums (batchInversion dens)
+    permVec n roots aS bS cS dS sigE beta gamma =
+      (if dens.any (· == 0) then none
+       else some ((List.range n).map (Quot.iterFrom step (1 % R)))) ∧
+    Quot.iterFrom step (1 % R) 0 = 1 % R ∧
+    (∀ i, Quot.iterFrom step (1 % R) (i + 1) = step i (Quot.iterFrom step (1 % R) i)) :=
+  ⟨permVec_structure n roots aS bS cS dS sigE beta gamma, rfl, fun _ => rfl⟩
+
+/-- non-vacuity: a two-row instance that is not the error case -/
+example : (permVec 2 [1, 5] [1, 2] [3, 4] [5, 6] [7, 8] [[1, 2], [3, 4], [5, 6], [7, 8]] 2 3).isSome := by
+  decide +kernel
+
+/-- **`par_iter().map(..).sum()`**: every reduction tree (leaves = consecutive pieces summed from
+    zero, inner nodes = field addition of the sub-results) yields the sequential sum of its items -/
+theorem parallel_sum_eq (t : RTree) : t.sum = seqSum t.items := t.sum_eq
+
+example : (RTree.node (.node (.leaf [1, 2]) (.leaf [])) (.node (.leaf [R - 1]) (.leaf [4, 5]))).items
+    = [1, 2, R - 1, 4, 5] := rfl
+
+/-- the sum of `compute_barycentric_eval` (used by the prover for the public-input evaluation)
+    computed along any reduction tree over its terms gives the model's `barycentric` -/
+theorem barycentric_sum_tree (d : Domain) (evals : List Nat) (point : Nat) (t : RTree)
+    (ht : t.items = ((evals.zipIdx.filter (fun x => x.1 % R != 0)).zip
+        (batchInversion ((evals.zipIdx.filter (fun x => x.1 % R != 0)).map
+          fun x => fsub (fmul (fpow d.groupGenInv x.2) point) 1))).map fun x => fmul x.2 x.1.1) :
+    d.barycentric evals point = fmul t.sum (fmul (fsub (fpow point d.size) 1) d.sizeInv) := by
+  rw [barycentric_eq_seqSum, t.sum_eq, ht]
+
+/-- non-vacuity: the one-leaf tree always qualifies -/
+example (d : Domain) (evals : List Nat) (point : Nat) : ∃ t : RTree,
+    t.items = ((evals.zipIdx.filter (fun x => x.1 % R != 0)).zip
+        (batchInversion ((evals.zipIdx.filter (fun x => x.1 % R != 0)).map
+          fun x => fsub (fmul (fpow d.groupGenInv x.2) point) 1))).map fun x => fmul x.2 x.1.1 :=
+  ⟨.leaf _, rfl⟩
+
+/-! ## 5. "is a function" (definitional statements, labelled as such) -/
+
+/-- DEFINITIONAL: `rayon::join(a, b)` is modelled as the pair of the two results; in a pure language
+    the order of two independent `let`s is irrelevant -/
+theorem join_is_pair {α β : Type} (a : Unit → α) (b : Unit → β) :
+    (let x := a (); let y := b (); (x, y)) = (let y := b (); let x := a (); (x, y)) := rfl
+
+example : (let x := (fun _ : Unit => 1) (); let y := (fun _ : Unit => 2) (); (x, y)) = (1, 2) := rfl
+
+/-- DEFINITIONAL: two compilations with equal arguments are equal -/
+theorem compile_is_function (srs srs' : SRS) (srsLen srsLen' : Nat) (label label' : List Nat)
+    (c c' : Composer) (h1 : srs = srs') (h2 : srsLen = srsLen') (h3 : label = label') (h4 : c = c') :
+    compile srs srsLen label c = compile srs' srsLen' label' c' := by
+  subst h1 h2 h3 h4; rfl
+
+example (srs : SRS) (c : Composer) : srs = srs ∧ (5 : Nat) = 5 ∧ ([1, 2] : List Nat) = [1, 2] ∧ c = c :=
+  ⟨rfl, rfl, rfl, rfl⟩
+
+/-- **proving is a function of the keys, the instance and the first 14 draws** (this is
+    `C06.rng_prefix`, restated): beyond `k`, `c`, `v3` the result depends on the draw list only
+    through its first 14 entries reduced mod r; further bytes of the RNG are never read -/
+theorem prove_is_function_of_draws (k : PKey) (c : Composer) (v3 : Bool) :
+    (∀ ds ds' : List Nat, 14 ≤ ds.length → 14 ≤ ds'.length →
+      (ds.take 14).map (· % R) = (ds'.take 14).map (· % R) → prove k c ds v3 = prove k c ds' v3) ∧
+    (∀ ds extra : List Nat, ds.length = 14 → prove k c (ds ++ extra) v3 = prove k c ds v3) :=
+  ⟨fun ds ds' => ProverMask.prove_first_14 k c v3 ds ds',
+   fun ds extra => ProverMask.prove_append k c v3 ds extra⟩
+
+example : 14 ≤ (List.range 14).length ∧ 14 ≤ (List.range 14 ++ [99, 100]).length ∧
+    ((List.range 14).take 14).map (· % R) = ((List.range 14 ++ [99, 100]).take 14).map (· % R) := by
+  decide +kernel
+
+/-! ## 6. `std` build = `alloc`-only build -/
+
+/-- **the alloc-only code path** uses `serial_fft` and plain sequential loops.  (a) `bestFft` with any
+    thread count is `serialFft`; (b) each of the transforms, with any thread count, is the same
+    expression with `serialFft` as kernel; (c) the compiler with the thread count threaded through
+    every transform is `compile` (which runs with `threads = 1`, where `bestFft` never takes the
+    parallel arm's multi-piece path); the loops are covered by §4.  `prove` has no `threads`
+    parameter in the model — see the header. -/
+theorem serial_equals_parallel_build (threads : Nat) (ht : 1 ≤ threads) :
+    (∀ (a : Array Nat) (omega logN : Nat), logN ≤ 256 →
+      bestFft a omega logN threads = serialFft a omega logN) ∧
+    (∀ (m : Nat) (d : Domain), Domain.new? m = some d → ∀ v : List Nat,
+      d.fft v threads
+        = (serialFft (foldMod (v.map (· % R)) d.size).toArray d.groupGen d.logSize).toList ∧
+      d.ifft v threads
+        = ((serialFft (resize (v.map (· % R)) d.size).toArray d.groupGenInv d.logSize).toList).map
+            (fmul · d.sizeInv) ∧
+      d.cosetFft v threads
+        = (serialFft (foldMod ((Domain.distributePowers v GENERATOR).map (· % R)) d.size).toArray
+            d.groupGen d.logSize).toList ∧
+      d.cosetIfft v threads
+        = Domain.distributePowers
+            (((serialFft (resize (v.map (· % R)) d.size).toArray d.groupGenInv d.logSize).toList).map
+              (fmul · d.sizeInv)) d.generatorInv) ∧
+    (∀ (srs : SRS) (srsLen : Nat) (label : List Nat) (c : Composer),
+      compileWith threads (List.range c.wit.size) srs srsLen label c = compile srs srsLen label c) := by
+  refine ⟨fun a omega logN hl => bestFft_eq_serialFft a omega logN threads ht hl, ?_,
+    fun srs srsLen label c => compileWith_eq threads ht _ srs srsLen label c (List.Perm.refl _)⟩
+  intro m d hd v
+  have hl : d.logSize ≤ 256 := by have := (Domain.new?_wf m d hd).2; omega
+  refine ⟨Domain.fft_eq_serial d hl v threads ht, Domain.ifft_eq_serial d hl v threads ht, ?_, ?_⟩
+  · unfold Domain.cosetFft; exact Domain.fft_eq_serial d hl _ threads ht
+  · unfold Domain.cosetIfft; rw [Domain.ifft_eq_serial d hl v threads ht]
+
+example : (1 : Nat) ≤ 12 ∧ ∃ d, Domain.new? 16 = some d :=
+  ⟨by omega, Option.isSome_iff_exists.mp (by decide +kernel)⟩
+
 end Plonk.Props.C18
